@@ -5,7 +5,8 @@ CFG = {
                    "GeoModel/LineIntersection.lean", "GeoModel/Ops/C01.lean",
                    "GeoProofs/Lemmas/RelateSpecLemmas.lean", "GeoProofs/Lemmas/RelateSpecLocate.lean",
                    "GeoProofs/Lemmas/RelateSpecBBox.lean", "GeoProofs/Lemmas/RelateSpecSwap.lean",
-                   "GeoProofs/Lemmas/RelateSpecDisjoint.lean", "GeoProofs/Lemmas/RelateSpecRewrite.lean"],
+                   "GeoProofs/Lemmas/RelateSpecDisjoint.lean", "GeoProofs/Lemmas/RelateSpecRewrite.lean",
+                   "GeoProofs/Lemmas/RelateSpecReverse.lean"],
     "rule": "ordered pairs (A, B) over all 10 geometry types (Geometry enum on both sides) drawn from one shared 3..6 grid: polyomino polygons with "
             "holes (incl. holes tangent to the shell), star polygons, rectangles with holes, corner-touching multipolygons, self-avoiding lattice "
             "paths, multi line strings sharing end points (mod-2 rule), half-grid points, same-dimension collections; each case also relates the "
@@ -42,10 +43,14 @@ MANIFEST = {
             "left side uses that a closed ring crosses a horizontal line upward as often as downward), and in matrix form: for operands whose "
             "coordinate bounding boxes are strictly separated along an axis every arrangement atom is exterior to one operand, so II, IB, BI, BB are F — the "
             "shape FF*FF**** that compute_disjoint emits (atom_outside_of_sep, relateParts_sep, computeDisjoint_shape); matrix algebra (transpose involution, "
-            "set_at_least/transposition commutation, symmetry of the disjoint-envelope shortcut). (6) the whole matrix, in either operand position, is invariant under re-writings that keep segment directions: closed ring / "
-            "closed curve started at another vertex, holes / members / points in another order (relateParts_congr, relateSpec_congr_parts, partsEquiv_members, "
-            "partsEquiv_perm, relateSpec_polygon_ext_rotate/_hole_rotate/_holes_perm, relateSpec_lineString_rotate, relateSpec_multi*_perm). Not proved: "
-            "invariance of the whole matrix (beyond point location) under reversing a ring or curve; that the remaining cells (IE, BE, EI, EB) of separated operands equal the dimensions passed to compute_disjoint. The adequacy of the "
+            "set_at_least/transposition commutation, symmetry of the disjoint-envelope shortcut). (6) the whole matrix, in either operand position, is invariant under re-writing an operand as the same point set: closed ring / "
+            "closed curve started at another vertex, ring / curve / line direction reversed, holes / members / points in another order (relateParts_same, "
+            "relateSpec_same_parts, partsSame_members, relateSpec_polygon_same/_ext_reverse/_hole_reverse/_ext_rotate/_hole_rotate/_holes_perm, "
+            "relateSpec_multiPolygon_member/_perm, relateSpec_lineString_reverse/_rotate, relateSpec_line_swap, relateSpec_multiLineString_member/_perm, "
+            "relateSpec_multiPoint_perm, relateParts_congr; via: intersection vertices independent of segment directions and of the order / multiplicity of "
+            "the segments (segVertex_swap_left, segVertex_self, mem_pairVertices_iff), atoms of a segment independent of its direction "
+            "(mem_segAtoms_swap)). Not proved: "
+            "that the remaining cells (IE, BE, EI, EB) of separated operands equal the dimensions passed to compute_disjoint. The adequacy of the "
             "specification w.r.t. point-set topology is an explicit assumption (S1, S2), not a theorem.",
     "note": "Trusted: Lean kernel + audited axioms; the harness/generators (sampling); spec adequacy S1/S2. Defects found by this check and repaired in /repo: "
             "Triangle vertical edge (29720670), MultiPolygon shared vertex (5f41a6da), MultiLineString boundary_dimensions mod-2 (17c66966).",
